@@ -28,7 +28,7 @@ type c20Case struct {
 }
 
 var c20Steps = []string{"login-ok", "login-bad", "visit-full", "visit-none", "logout", "recover", "register", "otp-login", "remember", "otp-add", "login-ok",
-	"recover-bad", "confirm-bad", "login-unknown", "get-pages", "register-dup", "recover-unknown", "recover-refused", "odd-methods"}
+	"recover-bad", "confirm-bad", "login-unknown", "get-pages", "register-dup", "recover-unknown", "recover-refused", "odd-methods", "totp-qr"}
 
 type c20Client struct {
 	w    *harness.World
@@ -179,6 +179,13 @@ func (c *c20Client) run(script []string) {
 		case "recover-refused":
 			// the client's second account lives in a domain whose mail server refuses it: the mailer's error path
 			c.do(name, "POST", P("/recover"), map[string]string{"email": fmt.Sprintf("bounce%d@refuse.x.io", c.i)}, nil)
+		case "totp-qr":
+			// start a TOTP enrolment and fetch its QR image (a rendered PNG) a few times
+			c.do(name+".login", "POST", P("/login"), map[string]string{"email": c.pid, "password": c.pw}, nil)
+			c.do(name+".setup", "POST", P("/2fa/totp/setup"), map[string]string{}, nil)
+			for k := 0; k < 3; k++ {
+				c.do(fmt.Sprintf("%s.qr%d", name, k), "GET", P("/2fa/totp/qr"), nil, nil)
+			}
 		case "odd-methods":
 			// methods the shipped router does not serve, on a path that is this client's own
 			for _, mth := range []string{"HEAD", "OPTIONS", "PUT", "PATCH"} {
@@ -332,7 +339,7 @@ func c20Gen(t *rapid.T) c20Case {
 	var c c20Case
 	k := rapid.IntRange(2, 8).Draw(t, "clients")
 	c.Cfg = harness.Config{Seed: rapid.Uint64Range(1, 1<<32).Draw(t, "seed"), Modules: []string{"auth", "confirm", "lock", "logout", "otp", "recover", "register", "remember"},
-		Setups: []string{"expire"}, Mount: pick(t, "mount", "/auth", ""), JSON: chance(t, "json", 50), Browsers: k, Middleware: "remember",
+		Setups: []string{"expire", "totp", "recovery"}, Mount: pick(t, "mount", "/auth", ""), JSON: chance(t, "json", 50), Browsers: k, Middleware: "remember",
 		LockAfter: 4, LockWindowS: 300, LockDurS: 600, RecoverLogin: chance(t, "reclogin", 50), MailGo: chance(t, "mailgo", 60),
 		Mailer: pick(t, "mailer", "", "log", "smtp", "smtp"), ShippedLog: chance(t, "shippedlog", 70), ModuleList: chance(t, "modlist", 50), Err500: chance(t, "err500", 50), Refusal: 1}
 	for i := 0; i < k; i++ {
